@@ -94,13 +94,35 @@ def layout(a, lay):
     raise ValueError(lay)
 
 
-def _permute(ref, targets):
+# Published argument names and order of the pinned tree (frozen on purpose, not read from the live signatures)
+SIG = {"congruence_coefficient": ["matrix1", "matrix2", "absolute_value"],
+       "correlation_index": ["factors_1", "factors_2", "tol", "method"],
+       "cp_permute_factors": ["ref_cp_tensor", "tensors_to_permute"],
+       "leverage_score_dist": ["matrix"],
+       "MSE": ["y_true", "y_pred", "axis"], "RMSE": ["y_true", "y_pred", "axis"], "R2": ["X_original", "X_predicted"],
+       "reflective": ["y_true", "y_pred", "axis"], "covariance": ["y_true", "y_pred", "axis"], "correlation": ["y_true", "y_pred", "axis"],
+       "variance": ["y", "axis"], "std": ["y", "axis"]}
+
+
+def invoke(fn, sig, values, form, npos=2):
+    """values: name -> value for a prefix of SIG[sig].  "pos": all positional; "kw": all by name; "std": the first
+    `npos` positional, the rest by name."""
+    names = [n for n in SIG[sig] if n in values]
+    assert names == SIG[sig][:len(names)] and len(names) == len(values)
+    if form == "pos":
+        return fn(*[values[n] for n in names])
+    if form == "kw":
+        return fn(**{n: values[n] for n in names})
+    return fn(*[values[n] for n in names[:npos]], **{n: values[n] for n in names[npos:]})
+
+
+def _permute(ref, targets, form="std"):
     """cp_permute_factors plus a definitional measurement: does a returned tensor share memory with the caller's
     tensor it was made from?  (_permute.alias: one flag per returned tensor)"""
     from tensorly.cp_tensor import cp_permute_factors
     tl_list = list(targets) if isinstance(targets, list) else [targets]
     held = [[np.asarray(t.weights)] + [np.asarray(f) for f in t.factors] for t in tl_list]
-    out, perms = cp_permute_factors(ref, targets)
+    out, perms = invoke(cp_permute_factors, "cp_permute_factors", {"ref_cp_tensor": ref, "tensors_to_permute": targets}, form)
     outs = out if isinstance(out, list) else [out]
     _permute.alias = [bool(any(np.shares_memory(a, b) for a in [np.asarray(o.weights)] + [np.asarray(f) for f in o.factors] for b in h))
                       for o, h in zip(outs, held)]
@@ -195,7 +217,108 @@ def _exact_options(c, A, B, w):
         except Exception as ex:
             rec.update(raised=True, exc=type(ex).__name__)
         out["permute"].append(rec)
+    if (c["R"] + c["M"] + c["s"]) % 2 == 0:        # rotated over the configurations (MatchingTrace.ExtraOn)
+        _extra_forms(c, A, B, w, out)
     return out
+
+
+def _zeros_as(a, spelling):
+    b = np.array(a, dtype=float)
+    b[b == 0] = -0.0 if spelling == "negzero" else 5e-324
+    return b
+
+
+def _extra_forms(c, A, B, w, out):
+    """Call forms (all positional / all keywords), zeros spelled -0.0 / 5e-324, the same objects right after a call that
+    raised, and aliasing (one object passed as both arguments)."""
+    import tensorly as tl
+    from tensorly.metrics.factors import congruence_coefficient
+    from tensorly.metrics.similarity import correlation_index
+    from tensorly.cp_tensor import CPTensor
+    R = c["R"]
+    for form in ("pos", "kw", "negzero", "subnormal", "afterfail"):
+        if form in ("negzero", "subnormal"):
+            P, Q = [_zeros_as(a, form) for a in A], [_zeros_as(b, form) for b in B]
+        else:
+            P, Q = [a.copy() for a in A], [b.copy() for b in B]
+        call = form if form in ("pos", "kw") else "std"
+        rec = {"mix": form, "abs": True, "form": "list", "swap": False, "raised": False, "val": QNAN, "perm": []}
+        try:
+            if form == "afterfail":
+                try:
+                    congruence_coefficient(P, Q[:-1] if len(Q) > 1 else Q + Q)      # lists of different length: ValueError
+                except ValueError:
+                    pass
+            val, perm = invoke(congruence_coefficient, "congruence_coefficient", {"matrix1": P, "matrix2": Q, "absolute_value": True}, call)
+            rec.update(val=qi(val, S6), perm=[int(x) for x in perm])
+        except Exception as ex:
+            rec.update(raised=True, exc=type(ex).__name__)
+        out["cong"].append(rec)
+        for m in METHODS:
+            rec = {"tol": 0, "dt": form, "swap": False, "method": m, "raised": False, "val": 0, "zero": False}
+            try:
+                if form == "afterfail":
+                    try:
+                        correlation_index(P, Q, method="no_such_method")                  # documented ValueError
+                    except ValueError:
+                        pass
+                sc = invoke(correlation_index, "correlation_index", {"factors_1": P, "factors_2": Q, "tol": 5e-16, "method": m}, call)
+                rec.update(val=qi(sc, S6), zero=bool(sc == 0))
+            except Exception as ex:
+                rec.update(raised=True, exc=type(ex).__name__)
+            out["corr"].append(rec)
+        if form in ("pos", "kw", "afterfail"):
+            rec = {"form": "single", "ref": "A", "target": "B", "mix": form, "raised": False, "perm": [], "exact": True, "factors": [], "weights": [],
+                   "eqf": False, "eqw": False, "alias": False}
+            try:
+                ref = CPTensor((np.ones(R), [a.copy() for a in A]))
+                tgt = CPTensor((np.asarray(w, dtype=float).copy(), [b.copy() for b in B]))
+                if form == "afterfail":
+                    try:
+                        _permute(ref, CPTensor((np.ones(R + 1), [np.ones((b.shape[0], R + 1)) for b in B])))   # rank mismatch: ValueError
+                    except ValueError:
+                        pass
+                t, perms = _permute(ref, tgt, call)
+                perm = [int(x) for x in np.asarray(perms[0]).ravel()]
+                facs, exact = [], True
+                for f in t.factors:
+                    rows, ex = _rows(f)
+                    facs.append(rows)
+                    exact = exact and ex
+                wd, ex = ints(t.weights)
+                rec.update(alias=bool(_permute.alias[0]), perm=perm, factors=facs, weights=wd, exact=bool(exact and ex))
+            except Exception as ex:
+                rec.update(raised=True, exc=type(ex).__name__)
+            out["permute"].append(rec)
+    # aliasing: one object as both arguments
+    sf = {"cong": {"abs": True, "form": "list", "swap": False, "raised": False, "val": QNAN, "perm": []}, "corr": {},
+          "permute": {"form": "single", "ref": "A", "target": "A", "mix": "self", "raised": False, "perm": [], "exact": True, "factors": [],
+                      "weights": [], "eqf": False, "eqw": False, "alias": False}}
+    P = [a.copy() for a in A]
+    try:
+        val, perm = congruence_coefficient(P, P)
+        sf["cong"].update(val=qi(val, S6), perm=[int(x) for x in perm])
+    except Exception as ex:
+        sf["cong"].update(raised=True, exc=type(ex).__name__)
+    for m in METHODS:
+        try:
+            sf["corr"][m] = qi(correlation_index(P, P, method=m), S6)
+        except Exception:
+            sf["corr"][m] = QNAN
+    try:
+        tt = CPTensor((np.ones(R), P))
+        t, perms = _permute(tt, tt)
+        facs, exact = [], True
+        for f in t.factors:
+            rows, ex = _rows(f)
+            facs.append(rows)
+            exact = exact and ex
+        wd, ex = ints(t.weights)
+        sf["permute"].update(alias=bool(_permute.alias[0]), perm=[int(x) for x in np.asarray(perms[0]).ravel()], factors=facs, weights=wd,
+                             exact=bool(exact and ex))
+    except Exception as ex:
+        sf["permute"].update(raised=True, exc=type(ex).__name__)
+    out["self"] = sf
 
 
 def exec_exact(case):
@@ -450,6 +573,7 @@ def exec_metric(case):
     c = case["cfg"]
     shape = tuple(c["shape"])
     rng = _rng(case["seed"], 21, sorted(OPFN).index(c["op"]), c["axis"] + 5, c["k"], c["off"], ["C", "F", "strided", "ro"].index(c["lay"]), *shape)
+    # (call form / zero spelling / aliasing do not enter the seed: the same data as their plain counterpart would get)
     n = int(np.prod(shape))
     x = rng.integers(-3, 4, size=n)
     y = rng.integers(-3, 4, size=n)
@@ -457,18 +581,24 @@ def exec_metric(case):
         y = np.clip(x + rng.integers(-1, 2, size=n), -3, 3)
     off = 0.0 if c["off"] == 0 else 2.0 ** c["off"]      # offset regime: exactly representable integers
     dt = np.float32 if c["dt"] == "f32" else np.float64
+    if c["same"]:
+        y = x
     X = layout((x.reshape(shape) + off).astype(dt), c["lay"])
     Y = layout((y.reshape(shape) + off).astype(dt), c["lay"])
+    if c["val"] != "plain":
+        X, Y = _zeros_as(X, c["val"]), _zeros_as(Y, c["val"])
+    if c["same"]:
+        Y = X                                      # one array object passed twice
     axis = None if c["axis"] == 99 else c["axis"]
     fn = getattr(reg, OPFN[c["op"]])
     try:
         with np.errstate(all="ignore"):
             if c["op"] == "R2":
-                res = fn(X, Y)
+                res = invoke(fn, "R2", {"X_original": X, "X_predicted": Y}, c["call"])
             elif c["op"] in ("variance", "std"):
-                res = fn(X, axis=axis)
+                res = invoke(fn, c["op"], {"y": X, "axis": axis}, c["call"], npos=1)
             else:
-                res = fn(X, Y, axis=axis)
+                res = invoke(fn, c["op"], {"y_true": X, "y_pred": Y, "axis": axis}, c["call"])
         res = np.asarray(res)
         out = {"raised": False, "shape": [int(s) for s in res.shape], "vals": [qi(v, S6) for v in res.ravel()]}
     except Exception as ex:
@@ -480,11 +610,11 @@ OPFN = {"MSE": "MSE", "RMSE": "RMSE", "covariance": "covariance", "variance": "v
         "correlation": "correlation", "reflective": "reflective_correlation_coefficient", "R2": "R2_score"}
 
 
-def _lev_out(mat):
+def _lev_out(mat, form="std"):
     import tensorly as tl
     from tensorly.metrics import leverage_score_dist
     try:
-        res = np.asarray(leverage_score_dist(tl.tensor(mat)))
+        res = np.asarray(invoke(leverage_score_dist, "leverage_score_dist", {"matrix": tl.tensor(mat)}, form, npos=1))
         return {"raised": False, "dtype": str(res.dtype), "shape": [int(s) for s in res.shape],
                 "vals": [qi(v, S8) for v in res.ravel()], "nneg": bool(np.all(res >= 0)),
                 "sumdev": qi(float(np.sum(res.astype(np.float64))) - 1.0, 10**12)}
@@ -508,7 +638,7 @@ def exec_lev(case):
     else:
         mat = rng.integers(-3, 4, size=(rows, cols)).astype(float)
         mat[0, 0] = 1.0
-    return {"id": case["id"], "kind": "lev", "cfg": c, "out": _lev_out(mat)}
+    return {"id": case["id"], "kind": "lev", "cfg": c, "out": _lev_out(mat, c["call"])}
 
 
 def exec_levexact(case):
